@@ -65,6 +65,8 @@ fn who(via: Via, idx: usize, k: usize) -> Who {
 pub enum Subject {
     ThreadArbiter,
     SystemArbiter,
+    /// the system arbiter of a `System` created on a thread that hosted another `System` before
+    SecondSystemArbiter,
     /// `Arbiter::with_tokio_rt` handed a multi-threaded Tokio runtime (2 workers)
     MtArbiter,
 }
@@ -83,7 +85,7 @@ fn case_json(c: &Case) -> Value {
 
 fn case_from(v: &Value) -> Case {
     Case {
-        subject: if v["subject"] == "SystemArbiter" { Subject::SystemArbiter } else if v["subject"] == "MtArbiter" { Subject::MtArbiter } else { Subject::ThreadArbiter },
+        subject: if v["subject"] == "SystemArbiter" { Subject::SystemArbiter } else if v["subject"] == "SecondSystemArbiter" { Subject::SecondSystemArbiter } else if v["subject"] == "MtArbiter" { Subject::MtArbiter } else { Subject::ThreadArbiter },
         cmds: v["cmds"].as_array().unwrap().iter().map(|c| match c.as_str().unwrap() { "F" => Cmd::F, "A" => Cmd::A, "P" => Cmd::P, "N" => Cmd::N, _ => Cmd::S }).collect(),
         batches: v["batches"].as_array().unwrap().iter().map(|b| b.as_u64().unwrap() as usize).collect(),
         via: match v["via"].as_str().unwrap() { "Owner" => Via::Owner, "Clone" => Via::Clone, "Own" => Via::Own, "OwnAlternate" => Via::OwnAlternate, _ => Via::Alternate },
@@ -96,6 +98,24 @@ enum LogEv {
     Finish { idx: usize },
     Sent { idx: usize, ok: bool },
     Joined,
+    /// a never-ending task was dropped (the arbiter is being taken apart); what `spawn_fn` /
+    /// `stop` on a handle of that arbiter returned at that moment
+    Teardown { idx: usize, spawn_ok: bool, stop_ok: bool },
+}
+
+struct DropProbe {
+    idx: usize,
+    h: ArbiterHandle,
+    log: Log,
+}
+impl Drop for DropProbe {
+    fn drop(&mut self) {
+        let spawn_ok = self.h.spawn_fn(|| {});
+        let stop_ok = self.h.stop();
+        if let Ok(mut l) = self.log.lock() {
+            l.push(LogEv::Teardown { idx: self.idx, spawn_ok, stop_ok });
+        }
+    }
 }
 
 type Log = Arc<Mutex<Vec<LogEv>>>;
@@ -129,10 +149,14 @@ fn send(h: &ArbiterHandle, cmd: Cmd, idx: usize, log: &Log, sys_id: usize) -> bo
             start(&l, idx, sys_id);
             panic!("task panics (expected-by-harness)");
         }),
-        Cmd::N => h.spawn(async move {
-            start(&l, idx, sys_id);
-            std::future::pending::<()>().await;
-        }),
+        Cmd::N => {
+            let h2 = h.clone();
+            h.spawn(async move {
+                start(&l, idx, sys_id);
+                let _probe = DropProbe { idx, h: h2, log: l.clone() };
+                std::future::pending::<()>().await;
+            })
+        }
         Cmd::S => h.stop(),
     }
 }
@@ -265,7 +289,13 @@ fn run_thread_arbiter(c: &Case, multi_thread_rt: bool) -> Observed {
     Observed { log, arbiter_thread, exit_flag_after_join, fenced_upto, first_stop, notes }
 }
 
-fn run_system_arbiter(c: &Case) -> Observed {
+fn run_system_arbiter(c: &Case, second_system: bool) -> Observed {
+    if second_system {
+        // this thread has hosted a System before (created, used once, gone)
+        let old = System::new();
+        old.block_on(async { tokio::task::yield_now().await });
+        drop(old);
+    }
     let runner = System::new();
     let sys = System::current();
     let sys_id = sys.id();
@@ -331,6 +361,8 @@ fn run_system_arbiter(c: &Case) -> Observed {
             notes.push("spawn/stop on the stopped system arbiter's handle returned true".into());
         }
     }
+    // taking the system apart drops the tasks that never finished
+    drop(runner);
     let log = log.lock().unwrap().clone();
     Observed { log, arbiter_thread: Some(std::thread::current().id()), exit_flag_after_join: None, fenced_upto, first_stop, notes }
 }
@@ -385,6 +417,18 @@ fn check(c: &Case, o: &Observed) -> Option<(String, String)> {
             }
         }
     }
+    // once the loop has ended because of a stop, handles report false - also while the arbiter is
+    // still being taken apart (a never-ending task is dropped then)
+    let stopped = o.first_stop.is_some() || matches!(c.subject, Subject::ThreadArbiter | Subject::MtArbiter);
+    if stopped {
+        for e in &o.log {
+            if let LogEv::Teardown { idx, spawn_ok, stop_ok } = e {
+                if *spawn_ok || *stop_ok {
+                    return bad("spawn-true-after-loop-end", format!("the arbiter had processed its stop and ended its loop; while it was being taken apart (task {idx} dropped) spawn_fn returned {spawn_ok} and stop returned {stop_ok} on a handle of it"));
+                }
+            }
+        }
+    }
     // join returns only after the loop has ended
     if let Some(jpos) = o.log.iter().position(|e| *e == LogEv::Joined) {
         if let Some(LogEv::Start { idx, .. }) = o.log[jpos..].iter().find(|e| matches!(e, LogEv::Start { .. })) {
@@ -402,7 +446,8 @@ pub fn run_case(c: &Case) -> Result<Option<(String, String)>, String> {
     let o = crate::with_watchdog(crate::WATCHDOG * 3, move || match c2.subject {
         Subject::ThreadArbiter => run_thread_arbiter(&c2, false),
         Subject::MtArbiter => run_thread_arbiter(&c2, true),
-        Subject::SystemArbiter => run_system_arbiter(&c2),
+        Subject::SystemArbiter => run_system_arbiter(&c2, false),
+        Subject::SecondSystemArbiter => run_system_arbiter(&c2, true),
     });
     match o {
         Ok(o) => Ok(check(c, &o)),
@@ -501,6 +546,9 @@ fn enumerate(max_len: usize, full_cut_len: usize, mt_len: usize) -> Vec<Case> {
                 if len <= mt_len {
                     for via in [Via::Owner, Via::Clone, Via::OwnAlternate] {
                         out.push(Case { subject: Subject::MtArbiter, cmds: cmds.clone(), batches: b.clone(), via });
+                    }
+                    for via in [Via::Owner, Via::Own, Via::OwnAlternate] {
+                        out.push(Case { subject: Subject::SecondSystemArbiter, cmds: cmds.clone(), batches: b.clone(), via });
                     }
                 }
             }
